@@ -53,7 +53,7 @@ CHECKS = {
    'runtime monitoring: table-by-table agreement monitor between emitted scripts and the dumped automaton'),
  'C07': ('exploration',
    'Strings over the whole admissible character set are placed as literals, within-word items and descriptions; all four scripts of the real binary are decoded with independent implementations of each shell\'s double-quote rules (set equality with the grammar\'s strings, nothing expandable), and bash is executed: bash -n, exact candidates, exact matching with near-miss rejection, exact prefix stripping, canary directory unchanged.',
-   'fish/zsh/pwsh by decoding only; curly quotes not generated; command names plain.',
+   'fish/zsh/pwsh by decoding only (typographic quotes in a pwsh constant: recorded finding KF-L, judged by the documented tokenizer rule); command names plain.',
    'runtime monitoring: decode-and-compare oracle on string constants + execution in bash with a canary'),
  'C09': ('exploration',
    '(a) every state of every compiled automaton is searched for two outgoing items with different targets that accept a common word; (b) the || grammar and its | variant are run in bash on the same command lines and must agree on return code, emptiness, subset and the minimal-branch clause; (c) for every grammar of the profile the compiled automaton of the || grammar with all || indices erased must accept the same language as the compiled automaton of its | spelling. KF-B, KF-E, KF-G are recorded findings.',
